@@ -125,11 +125,6 @@ ALPHA_NAMES = ["int", "nat", "float", "bool", "str", "tuple", "array", "frozenar
                "False", "S0", "Box", "Pair", "Vec", "Cp", "Sz", "Lin", "zzz"]
 
 
-def render_toks(t):
-    """an independent rendering of a type as Python source tokens in *several* legal spellings"""
-    raise NotImplementedError
-
-
 def gen_toks(r, n_max=12):
     """token streams: mutated printed shapes + free random streams"""
     toks = []
